@@ -99,9 +99,51 @@ def scenario_case(rng):
     return ops
 
 
+def multi_probe_case(rng):
+    """directed: two or three breakers of one resource opened by the same failures, all past their retry deadline when one
+    request arrives - every one of them turns Half-Open on that request - and the request is rejected by another rule: each of
+    them must go back to Open and announce it (seed C03-e: only the last registered exit hook ran). Then the blocker is
+    removed and the next request probes all of them again."""
+    ops = ["clock"]
+    k = rng.choice([2, 2, 3])
+    retry = rng.choice([300, 1000])
+    rules = []
+    for j in range(k):
+        st = rng.choice(["c", "r", "s"])
+        thr = "1" if st == "c" else rng.choice(["1/2", "1"])
+        rules.append("%s;%s;%d;1;%d;%d;50;%s" % ("bcd"[j], st, retry, rng.choice([2000, 10000]), rng.choice([1, 2]), thr))
+    ops.append("br.load res=r rules=" + ",".join(rules))
+    ops.append("adv ms=%d" % rng.choice([1, 250]))
+    eid = 0
+    for _ in range(rng.randint(1, 3)):          # slow and failed completions: count against every strategy
+        eid += 1
+        ops += ["build e=%d res=r batch=1 dir=out" % eid, "adv ms=%d" % rng.choice([60, 80]), "exit e=%d err=1" % eid, "br.state res=r"]
+    ops.append("adv ms=%d" % (retry + rng.choice([0, 1, 50])))
+    blocker = rng.choice(["flow", "iso"])
+    if blocker == "flow":
+        ops.append("flow.load res=r rules=f:0:0")
+    else:
+        ops.append("iso.load res=r rules=i:1")
+        eid += 1
+        ops.append("build e=%d res=q batch=1 dir=out" % eid)       # unrelated resource: keeps nothing in flight on r
+        ops.append("flow.load res=r rules=f:0:0")
+    eid += 1
+    ops += ["build e=%d res=r batch=1 dir=out" % eid, "br.state res=r"]        # probes all, rejected by the flow rule
+    if rng.random() < 0.5:
+        eid += 1
+        ops += ["build e=%d res=r batch=1 dir=out" % eid, "br.state res=r"]    # again
+    ops.append("flow.load res=r rules=f:100:0")
+    eid += 1
+    ops += ["build e=%d res=r batch=1 dir=out" % eid, "br.state res=r", "adv ms=%d" % rng.choice([1, 60])]
+    ops += ["exit e=%d err=%d" % (eid, rng.choice([0, 1])), "br.state res=r"]
+    eid += 1
+    ops += ["build e=%d res=r batch=1 dir=out" % eid, "br.state res=r"]
+    return ops
+
+
 def gen_own(rng, tier):
     n = 300 if tier == "quick" else 15000
-    return [gen_case(rng) for _ in range(n)] + [scenario_case(rng) for _ in range(n)]
+    return [gen_case(rng) for _ in range(n)] + [scenario_case(rng) if i % 5 else multi_probe_case(rng) for i in range(n)]
 
 
 def gen(rng, tier):
